@@ -993,6 +993,7 @@ impl Read for ChunkReader<'_> {
 pub fn run(tier: Tier) -> i32 {
     let mut rep = Report::new("C01", tier, "exploration");
     rep.set("rule", json!(format!("(1) all strings of <= {} XML tokens from a {}-token alphabet (tags of every element family, attribute openers, quotes, comment/CDATA/PI delimiters, entities, a raw 0xFF byte) under 2 configurations; (2) all strings of <= {} tokens of the expression alphabet ({} tokens) through the attribute evaluator and <= {} inside carrier documents; <= {} tokens of the path alphabet ({}); <= {} tokens of the relspec alphabet ({}) in each of {} attribute carriers (every attribute the code parses by hand); (2b) reference graphs: every sequence of <= 5 (thorough 7) items from 10 use elements over ids a/b and ^, every sequence of <= 3 (thorough 5) items from 24 reference-bearing elements (positions, clip paths, surround/inside, use/reuse, self and mutual references), and every chain of <= 3 (thorough 4) named use/reuse elements with every href assignment among ^ and the ids x optional separating rects x use|reuse x final probe; (3) {} shape ladders (expression nesting, XML nesting per container kind, sibling/attribute/text/path/points/transform lengths, reuse/use/variable/^ chains, forward-reference chains, loops, growth, comments/CDATA/entities, class/surround/connector counts, unclosed and repeated roots) with rungs 1,2,4..2^{} under default, small and minimal limits. Every case runs in a sandboxed worker subprocess on a 2 MiB-stack thread: a panic (reported with its location), death by signal, a stall beyond the watchdog, or element evaluations above 8 x (requested work + 8) is a violation; a dying worker's window is re-run case by case to pin the input. (4) 30 outcome-class representatives and deep ladder rungs through the svgdx command (stdin->stdout and file->file: exit status 0/1, message on failure, no signal, within the watchdog) and through a live svgdx-server (status 200/400, server still answers afterwards). (5) for 40 documents every position at which the writer fails and reads delivered in chunks of 1/2/7 bytes. Non-trivial counts distinct cases that ran to a verdict.", tier.pick(4, 5), XML_TOKENS.len(), tier.pick(4, 5), EXPR_TOKENS.len(), tier.pick(3, 4), tier.pick(4, 5), PATH_TOKENS.len(), tier.pick(3, 4), REL_TOKENS.len(), CARRIERS.len(), LADDERS.len(), tier.pick(12, 17))));
+    rep.set("also_later", json!("Rounds 3-5 added ladders: elements waiting with many variables / comments / many waiting elements, references inside points, a retry with a growing id, templates reusing each other twice, entities with empty replacement text fanning out, many declared entities, many assignments after a waiting element, a long indentation repeated per element, a many-point polyline referenced many times."));
     let machinery: Mutex<Vec<String>> = Mutex::new(Vec::new());
     let stall = Duration::from_secs(tier.pick(10, 30));
     let evaluated = AtomicU64::new(0);
